@@ -124,6 +124,10 @@ class Method(Variable):  # i.e. TypeBound procedure
                 self.link_obj = link_obj
                 if self.pass_name is not None:
                     self.pass_name = self.pass_name.lower()
+                    # As set_parent() left it: the argument named by PASS may have
+                    # been renamed away since the link was last resolved
+                    if self.parent.get_type() == CLASS_TYPE_ID:
+                        self.drop_arg = 0
                     for i, arg in enumerate(link_obj.args_snip.split(",")):
                         if arg.lower() == self.pass_name:
                             self.drop_arg = i
